@@ -45,11 +45,11 @@ public:
         integer_class result(0);
 
         for (auto it = dict_.rbegin(); it != dict_.rend(); ++it) {
-            result <<= x * (last_deg - (*it).first);
+            result <<= static_cast<unsigned long>(x) * (last_deg - (*it).first);
             result += (*it).second;
             last_deg = (*it).first;
         }
-        result <<= x * last_deg;
+        result <<= static_cast<unsigned long>(x) * last_deg;
 
         return result;
     }
